@@ -216,8 +216,8 @@ theorem requestFile_eq (c : Cfg) (path : Bytes) (hne : requestFile c path ≠ []
       rw [this]; rfl
     · rfl
 
-theorem entryPath_eq (c : Cfg) (path name : Bytes) (hn : Normal name) :
-    entryPath c path name = attach c.rootC (cleanStack (slash :: path) ++ [name]) := by
+theorem entryPathUrl_eq (c : Cfg) (path name : Bytes) (hn : Normal name) :
+    entryPathUrl c path name = attach c.rootC (cleanStack (slash :: path) ++ [name]) := by
   have hq : pathClean path ≠ [] := pathClean_ne_nil path
   have h1 : ∀ x ∈ [name], Normal x := by intro x hx; simp at hx; subst hx; exact hn
   -- J = path.Join(Clean(path), name) = Clean(path) followed by `name`
@@ -256,25 +256,35 @@ theorem entryPath_eq (c : Cfg) (path name : Bytes) (hn : Normal name) :
     have := cleanStack_join (slash :: pathClean path) (by simp) [name] h1
     simp only [joinSlash, List.cons_append] at this
     rw [this, cleanStack_slash_pathClean]
-  unfold entryPath
+  unfold entryPathUrl
   rw [sanitizedPathJoin_eq, rootE_fix, hnots, hstack]
   simp
 
-/-- **the listing filter looks at the entry's real path**: when the listed directory is the file
+/-- the cfacd08 filter looks at the entry's real path *when* the listed directory is the file
     the request mapped to, `fileHidden` gives the same answer for the path the filter builds from
     the URL and for `dir/name` -/
-theorem entry_hidden_eq (c : Cfg) (path name : Bytes) (hn : Normal name) (hne : requestFile c path ≠ []) :
-    c.hidden (entryPath c path name) = c.hidden (requestFile c path ++ slash :: name) := by
+theorem entry_hidden_url_eq (c : Cfg) (path name : Bytes) (hn : Normal name) (hne : requestFile c path ≠ []) :
+    c.hidden (entryPathUrl c path name) = c.hidden (requestFile c path ++ slash :: name) := by
   have hl := relOf_normal path
   have h1 : ∀ x ∈ [name], Normal x := by intro x hx; simp at hx; subst hx; exact hn
-  have hB : pathClean (requestFile c path ++ slash :: name) = entryPath c path name := by
+  have hB : pathClean (requestFile c path ++ slash :: name) = entryPathUrl c path name := by
     have := pathClean_join (requestFile c path) hne [name] h1
     simp only [joinSlash] at this
-    rw [this, requestFile_eq c path hne, entryPath_eq c path name hn]
+    rw [this, requestFile_eq c path hne, entryPathUrl_eq c path name hn]
     unfold Cfg.rootC
     rw [pathClean_attach c.rootE _ hl, attach_attach c.rootE _ [name] hl h1]
-  have : fastAbs c.cwd (entryPath c path name) = fastAbs c.cwd (requestFile c path ++ slash :: name) := by
+  have : fastAbs c.cwd (entryPathUrl c path name) = fastAbs c.cwd (requestFile c path ++ slash :: name) := by
     rw [← hB]; exact fastAbs_pathClean c.cwd _ (by simp)
+  unfold Cfg.hidden fileHidden
+  rw [this]
+
+/-- **the listing filter looks at the entry's real path**: `fileHidden` gives the same answer for
+    `filepath.Join(dirPath, name)` and for `dirPath/name` -/
+theorem entry_hidden_eq (c : Cfg) (dir name : Bytes) (hne : dir ≠ []) :
+    c.hidden (pathJoin2 dir name) = c.hidden (dir ++ slash :: name) := by
+  have : fastAbs c.cwd (pathJoin2 dir name) = fastAbs c.cwd (dir ++ slash :: name) := by
+    simp only [pathJoin2, hne, if_false]
+    exact fastAbs_pathClean c.cwd _ (by simp)
   unfold Cfg.hidden fileHidden
   rw [this]
 
